@@ -325,6 +325,10 @@ func parseMultipart(body io.Reader, boundary string, depth int, parentPartIdx *i
 		encoding := p.Header.Get("Content-Transfer-Encoding")
 		disposition := p.Header.Get("Content-Disposition")
 		filename := p.FileName()
+		if filename == "" {
+			// Older mailers give the file name only as the "name" parameter of Content-Type
+			filename = params["name"]
+		}
 		contentID := p.Header.Get("Content-ID")
 
 		fmt.Printf("DEBUG parseMultipart: Found part: type='%s', disposition='%s', filename='%s', size=%d, depth=%d\n",
